@@ -1,23 +1,37 @@
 //! C02 — tamper evidence of the manifest store.
 //!
-//! One model request per (store, mutation kind):
-//!   C02 cover store=<hex> active=<label hex> pads=<s:l,…|-> kind=<flip|set|…> obs=<a-b:o,…>
+//! Byte level, one model request per (store, mutation kind):
+//!   C02 cover store=<hex> pads=<s:l,…|-> nils=<p,…|-> heads=<p,…|-> kind=<flip|set> case=<name> obs=<a-b:o,…>
 //! `obs` is the run-length encoded list of what the implementation did when byte `p` of the store
 //! was changed: `d` detected (read error or state Invalid), `u` accepted with the report unchanged,
-//! `X` accepted with a different report. The model (lean/C2paModel/Model/C02.lean) parses the
-//! store with the C18 JUMBF model, assigns every byte its coverage class and answers `ok` when
-//! every observation is allowed for its class (`d` for covered classes; `d` or `u` for the
-//! enumerated uncovered classes), else the list of offending segments. The implementation reply
-//! is the constant `ok`.
-//!   C02 verify …  function-level requests for the abstract coverage structure (see model).
+//! `X` accepted with a different report, `-` not tried. The model (lean/C2paModel/Model/C02.lean)
+//! parses the store with the C18 JUMBF model, assigns every byte its coverage class and answers
+//! `ok` when every observation is allowed for its class (`d` for covered classes; `d` or `u` for
+//! the enumerated uncovered classes), else the first offending position. `pads` (pad entries of
+//! COSE unprotected headers), `nils` (the nil payload byte of a COSE_Sign1) and `heads` (CBOR string heads inside databoxes) are located here and
+//! re-checked for shape and position by the model. The implementation reply is the constant `ok`.
+//!
+//! Function level, one request per (store, edit):
+//!   C02 verify case=<name> edit=<edit> store=<manifest>|<manifest>|…
+//! a real store — pristine, or with a bit flipped inside an assertion / claim payload or a pad of a
+//! signature box, or with boxes reordered / duplicated / dropped / relabelled — is loaded with the
+//! real `Store::from_jumbf`, described to layer A of the model (labels, instances, digests, ingredient
+//! references, redactions as the code parses them) and the reply is the log of the real
+//! `Store::verify_store` in the vocabulary of layer A (`ok|err` + sorted failures).
 //!
 //! Implementation-level oracle (independent of the model): a change of a store byte, a box
 //! reorder / duplication / label edit either gives an error / Invalid, or the report (minus the
-//! validation time) is byte-identical to the untampered one.
+//! validation time) is byte-identical to the untampered one; changed payload bytes of a store that
+//! still loads leave a failure in the log of `verify_store`.
 
 use std::io::Cursor;
 
-use c2pa::{Builder, Context, EphemeralSigner, Reader};
+use c2pa::{
+    status_tracker::{LogKind, StatusTracker},
+    verif_hooks::{c19 as hk19, c20 as hk20, c34 as hk34},
+    Builder, Context, EphemeralSigner, Reader,
+};
+use sha2::{Digest, Sha256};
 use vh::common::{canon_json, fixtures, guarded, hex, main_with, Rng, Run};
 use vh::embed_common::{self as ec, Family};
 
@@ -33,18 +47,41 @@ fn settings() -> String {
     .to_string()
 }
 
-fn definition(format: &str, title: &str, created: bool) -> String {
+/// extra content of a manifest definition: note assertions (label, text) — the same label may
+/// occur more than once (instances `label`, `label__1`, …) — and redacted assertion URIs
+#[derive(Clone, Default)]
+struct Extra {
+    notes: Vec<(String, String)>,
+    redactions: Vec<String>,
+}
+
+fn definition(format: &str, title: &str, created: bool, extra: &Extra) -> String {
     let mut v = serde_json::json!({
         "title": title,
         "format": format,
         "claim_generator_info": [{"name": "verif-harness", "version": "0.1"}],
         "assertions": []
     });
+    let mut actions = vec![];
     if created {
-        v["assertions"] = serde_json::json!([
-            {"label": "c2pa.actions", "data": {"actions": [{"action": "c2pa.created", "digitalSourceType": "http://cv.iptc.org/newscodes/digitalsourcetype/digitalCapture"}]}},
-            {"label": "org.verif.note", "data": {"text": "hello store"}}
-        ]);
+        actions.push(serde_json::json!({"action": "c2pa.created", "digitalSourceType": "http://cv.iptc.org/newscodes/digitalsourcetype/digitalCapture"}));
+    }
+    for u in &extra.redactions {
+        actions.push(serde_json::json!({"action": "c2pa.redacted", "reason": "c2pa.PII.present", "parameters": {"redacted": u}}));
+    }
+    let mut assertions = vec![];
+    if !actions.is_empty() {
+        assertions.push(serde_json::json!({"label": "c2pa.actions", "data": {"actions": actions}}));
+    }
+    if created {
+        assertions.push(serde_json::json!({"label": "org.verif.note", "data": {"text": "hello store"}}));
+    }
+    for (l, t) in &extra.notes {
+        assertions.push(serde_json::json!({"label": l, "data": {"text": t}}));
+    }
+    v["assertions"] = serde_json::json!(assertions);
+    if !extra.redactions.is_empty() {
+        v["redactions"] = serde_json::json!(extra.redactions);
     }
     v.to_string()
 }
@@ -53,12 +90,16 @@ fn definition(format: &str, title: &str, created: bool) -> String {
 type Ing = (&'static str, String, Vec<u8>);
 
 fn sign(format: &str, src: &[u8], title: &str, ingredients: &[Ing]) -> Result<Vec<u8>, String> {
-    let (f, s, t, ings) = (format.to_string(), src.to_vec(), title.to_string(), ingredients.to_vec());
+    sign_ex(format, src, title, ingredients, &Extra::default())
+}
+
+fn sign_ex(format: &str, src: &[u8], title: &str, ingredients: &[Ing], extra: &Extra) -> Result<Vec<u8>, String> {
+    let (f, s, t, ings, extra) = (format.to_string(), src.to_vec(), title.to_string(), ingredients.to_vec(), extra.clone());
     let r = guarded(move || -> c2pa::Result<Vec<u8>> {
         let signer = EphemeralSigner::new("verif.test")?;
         let ctx = Context::new().with_settings(settings().as_str())?.with_signer(signer);
         let has_parent = ings.iter().any(|i| i.0 == "parentOf");
-        let mut builder = Builder::from_context(ctx).with_definition(definition(&f, &t, !has_parent).as_str())?;
+        let mut builder = Builder::from_context(ctx).with_definition(definition(&f, &t, !has_parent, &extra).as_str())?;
         if has_parent {
             builder.set_intent(c2pa::BuilderIntent::Edit);
         }
@@ -225,6 +266,58 @@ fn build_cases(run: &mut Run, rng: &mut Rng) -> Vec<Case> {
             }
         }
         Err(e) => run.notes.push(format!("sign child failed: {e}")),
+    }
+    // redaction chain: the parent carries three instances of one label (`org.verif.memo`,
+    // `…__1`, `…__2`) and a second label; the child (parent + component ingredient) redacts the
+    // middle instance; the grandchild carries the redaction one level further down
+    let rextra = Extra {
+        notes: vec![
+            ("org.verif.memo".into(), "memo-zero-kept-0000".into()),
+            ("org.verif.memo".into(), "memo-one-redacted-1111".into()),
+            ("org.verif.memo".into(), "memo-two-kept-2222".into()),
+            ("org.verif.other".into(), "other-kept-3333".into()),
+        ],
+        redactions: vec![],
+    };
+    match sign_ex("png", &png.bytes, "rparent", &[], &rextra) {
+        Ok(rparent) => {
+            let plabel = read_embedded("png", &rparent).active;
+            let uri = format!("self#jumbf=/c2pa/{plabel}/c2pa.assertions/org.verif.memo__1");
+            let cextra = Extra {
+                notes: vec![("org.verif.memo".into(), "memo-of-child-zero".into()), ("org.verif.memo".into(), "memo-of-child-one".into())],
+                redactions: vec![uri],
+            };
+            match sign_ex("png", &fpng, "rchild", &[("parentOf", "png".into(), rparent), ("componentOf", "jpg".into(), comp)], &cextra) {
+                Ok(rchild) => {
+                    let r = read_embedded("image/png", &rchild);
+                    run.obligations.insert(
+                        "redaction-chain:redacted-text-gone-siblings-kept".into(),
+                        !r.json.contains("memo-one-redacted-1111") && r.json.contains("memo-zero-kept-0000") && r.json.contains("memo-two-kept-2222"),
+                    );
+                    if let Some(c) = prepare(run, "redact2:png", "image/png", rchild.clone()) {
+                        cases.push(c);
+                    }
+                    match sign("png", &png.bytes, "rgrandchild", &[("parentOf", "image/png".into(), rchild)]) {
+                        Ok(g) => {
+                            if let Some(c) = prepare(run, "redact3:png", "png", g) {
+                                cases.push(c);
+                            }
+                        }
+                        Err(e) => run.notes.push(format!("sign redaction grandchild failed: {e}")),
+                    }
+                }
+                Err(e) => run.notes.push(format!("sign redaction child failed: {e}")),
+            }
+        }
+        Err(e) => run.notes.push(format!("sign redaction parent failed: {e}")),
+    }
+    // a fixture with a v1 claim chain, an update manifest and a `c2pa.databoxes` store (the
+    // builder writes v2 claims, which keep such data in assertions)
+    if let Ok(f) = std::fs::read(fixtures().join("update_manifest.jpg")) {
+        if let Some(c) = prepare(run, "fixture-databoxes:jpg", "jpg", f) {
+            run.obligations.insert("fixture-has-databox-store".into(), c.store.windows(14).any(|w| w == b"c2pa.databoxes"));
+            cases.push(c);
+        }
     }
     cases
 }
@@ -468,32 +561,227 @@ fn pad_ranges(store: &[u8]) -> Vec<(usize, usize)> {
     out
 }
 
-fn sweep(run: &mut Run, rng: &mut Rng, c: &Case, kind: &str, stride: usize) {
+/// super boxes directly inside `b[start..end]`: (offset, length, label, offset of the first child)
+fn supers(b: &[u8], start: usize, end: usize) -> Vec<(usize, usize, String, usize)> {
+    let mut out = vec![];
+    let mut off = start;
+    while off + 8 <= end.min(b.len()) {
+        let l = u32::from_be_bytes([b[off], b[off + 1], b[off + 2], b[off + 3]]) as usize;
+        if l < 8 || off + l > end {
+            break;
+        }
+        if &b[off + 4..off + 8] == b"jumb" && l >= 16 {
+            let dl = u32::from_be_bytes([b[off + 8], b[off + 9], b[off + 10], b[off + 11]]) as usize;
+            if dl >= 25 && 8 + dl <= l {
+                let lab = &b[off + 33..off + 8 + dl];
+                let lab = String::from_utf8_lossy(lab.split(|x| *x == 0).next().unwrap_or(&[])).to_string();
+                out.push((off, l, lab, off + 8 + dl));
+            }
+        }
+        off += l;
+    }
+    out
+}
+
+/// byte ranges (offset, length) of the assertion stores of the manifests that are not the active
+/// one, and of the databox / credential stores of every manifest
+fn ingredient_assertion_ranges(store: &[u8]) -> Vec<(usize, usize)> {
+    let mut out = vec![];
+    let Some(root) = supers(store, 0, store.len()).into_iter().next() else { return out };
+    let manifests = supers(store, root.3, root.0 + root.1);
+    for (k, m) in manifests.iter().enumerate() {
+        for part in supers(store, m.3, m.0 + m.1) {
+            // assertion stores of the ingredient manifests; databox and credential stores of all
+            if (part.2 == "c2pa.assertions" && k + 1 < manifests.len()) || part.2 == "c2pa.databoxes" || part.2 == "c2pa.credentials" {
+                out.push((part.0, part.1));
+            }
+        }
+    }
+    out
+}
+
+/// offsets (relative to `b`) of the heads of byte- and text-string items (major type 2, 3) of the CBOR item
+/// starting at `*pos`; None = not well-formed / indefinite lengths (nothing is claimed then)
+fn cbor_bstr_heads(b: &[u8], pos: &mut usize, out: &mut Vec<usize>, depth: usize) -> Option<()> {
+    if depth > 32 {
+        return None;
+    }
+    let head = *pos;
+    let ib = *b.get(head)?;
+    let (major, ai) = (ib >> 5, ib & 0x1f);
+    *pos += 1;
+    let arg: u64 = match ai {
+        0..=23 => ai as u64,
+        24 => {
+            let v = *b.get(*pos)? as u64;
+            *pos += 1;
+            v
+        }
+        25 | 26 | 27 => {
+            let n = 1usize << (ai - 24);
+            let mut v = 0u64;
+            for k in 0..n {
+                v = (v << 8) | *b.get(*pos + k)? as u64;
+            }
+            *pos += n;
+            v
+        }
+        _ => return None,
+    };
+    match major {
+        0 | 1 | 7 => {}
+        2 | 3 => {
+            out.push(head);
+            *pos = pos.checked_add(arg as usize)?;
+            if *pos > b.len() {
+                return None;
+            }
+        }
+        4 => {
+            for _ in 0..arg {
+                cbor_bstr_heads(b, pos, out, depth + 1)?;
+            }
+        }
+        5 => {
+            for _ in 0..arg.checked_mul(2)? {
+                cbor_bstr_heads(b, pos, out, depth + 1)?;
+            }
+        }
+        6 => cbor_bstr_heads(b, pos, out, depth + 1)?,
+        _ => return None,
+    }
+    Some(())
+}
+
+/// store positions of the heads of string items inside the CBOR content boxes of databoxes
+/// (children of children of a `c2pa.databoxes` store): a databox is hashed after being decoded and
+/// re-encoded, and the decoder accepts a text string where a byte string is expected and vice versa
+fn databox_bstr_heads(store: &[u8]) -> Vec<usize> {
+    let mut out = vec![];
+    let Some(root) = supers(store, 0, store.len()).into_iter().next() else { return out };
+    for m in supers(store, root.3, root.0 + root.1) {
+        for part in supers(store, m.3, m.0 + m.1) {
+            if part.2 != "c2pa.databoxes" {
+                continue;
+            }
+            for db in supers(store, part.3, part.0 + part.1) {
+                // content boxes of the databox
+                let mut off = db.3;
+                while off + 8 <= db.0 + db.1 {
+                    let l = u32::from_be_bytes([store[off], store[off + 1], store[off + 2], store[off + 3]]) as usize;
+                    if l < 8 || off + l > db.0 + db.1 {
+                        break;
+                    }
+                    if &store[off + 4..off + 8] == b"cbor" {
+                        let body = &store[off + 8..off + l];
+                        let (mut pos, mut heads) = (0usize, vec![]);
+                        if cbor_bstr_heads(body, &mut pos, &mut heads, 0).is_some() && pos == body.len() {
+                            out.extend(heads.into_iter().map(|h| off + 8 + h));
+                        }
+                    }
+                    off += l;
+                }
+            }
+        }
+    }
+    out
+}
+
+/// worker threads for the read-back loops (`VERIF_THREADS`); default 1: measured on the shared
+/// 16-core box, 6 threads were 3x *slower* than 1 (page-fault / allocator contention)
+fn threads() -> usize {
+    std::env::var("VERIF_THREADS").ok().and_then(|s| s.parse().ok()).unwrap_or(1).max(1)
+}
+
+/// `f` over `items` on a few worker threads (work is handed out item by item; the result order is
+/// the item order, so a run is reproducible from its seed)
+fn par_map<T: Sync, R: Send>(items: &[T], f: impl Fn(&T) -> R + Sync) -> Vec<R> {
+    let next = std::sync::atomic::AtomicUsize::new(0);
+    let mut parts: Vec<Vec<(usize, R)>> = vec![];
+    std::thread::scope(|sc| {
+        let hs: Vec<_> = (0..threads().min(items.len().max(1)))
+            .map(|_| {
+                sc.spawn(|| {
+                    let mut mine = vec![];
+                    loop {
+                        let i = next.fetch_add(1, std::sync::atomic::Ordering::Relaxed);
+                        if i >= items.len() {
+                            break;
+                        }
+                        mine.push((i, f(&items[i])));
+                    }
+                    mine
+                })
+            })
+            .collect();
+        for h in hs {
+            parts.push(h.join().unwrap_or_default());
+        }
+    });
+    let mut all: Vec<(usize, R)> = parts.into_iter().flatten().collect();
+    all.sort_by_key(|x| x.0);
+    all.into_iter().map(|x| x.1).collect()
+}
+
+/// Change store bytes one at a time and read back. Positions: every `stride`-th byte (random
+/// phase) plus, when `focus`, every byte of the assertion stores of the ingredient manifests.
+fn sweep(run: &mut Run, rng: &mut Rng, c: &Case, kind: &str, stride: usize, focus: bool) {
     let n = c.store.len();
     let mut obs = vec!['-'; n];
     let r0 = rng.below(stride as u64) as usize;
+    let focus_ranges = if focus { ingredient_assertion_ranges(&c.store) } else { vec![] };
+    let bstr_heads = databox_bstr_heads(&c.store);
+    let pads = pad_ranges(&c.store);
+    let nil_pos: Vec<usize> = pads
+        .chunks(2)
+        .filter_map(|pair| match pair {
+            [_, (v, l)] if c.store.get(v + l) == Some(&0xf6) && c.store.get(v + l + 1).is_some_and(|b| b >> 5 == 2) => Some(v + l),
+            _ => None,
+        })
+        .collect();
+    let mut muts: Vec<(usize, u8)> = vec![];
     for p in 0..n {
-        if stride > 1 && p % stride != r0 {
+        let focused = focus_ranges.iter().any(|(a, l)| *a <= p && p < a + l);
+        if stride > 1 && p % stride != r0 && !focused && !nil_pos.contains(&p) {
             continue;
         }
-        let mut s = c.store.clone();
-        match kind {
-            "flip" => s[p] ^= 1 << rng.below(8),
-            _ => s[p] = s[p].wrapping_add(rng.range(1, 255) as u8),
+        if focused {
+            run.count(&format!("{kind}:ingredient-assertion-store-byte"));
         }
-        let r = read_with_store(&c.format, &c.asset, &s);
-        let o = outcome(&c.base, &r);
-        obs[p] = o;
+        let b = match kind {
+            // the head of a databox byte string: always try the byte-string <-> text-string bit
+            "flip" if bstr_heads.contains(&p) => c.store[p] ^ 0x20,
+            // the nil payload of a COSE_Sign1: always try nil -> undefined
+            "flip" if nil_pos.contains(&p) => c.store[p] ^ 0x01,
+            "flip" => c.store[p] ^ (1 << rng.below(8)),
+            _ => c.store[p].wrapping_add(rng.range(1, 255) as u8),
+        };
+        muts.push((p, b));
+    }
+    let outs = par_map(&muts, |(p, b)| {
+        let mut s = c.store.clone();
+        s[*p] = *b;
+        outcome(&c.base, &read_with_store(&c.format, &c.asset, &s))
+    });
+    for ((p, _), o) in muts.iter().zip(outs) {
+        obs[*p] = o;
         run.count(&format!("{kind}:{o}"));
         run.nontrivial(format!("{}:{kind}:{p}", c.name));
     }
-    let pads = pad_ranges(&c.store);
     let pads_s = if pads.is_empty() { "-".to_string() } else { pads.iter().map(|(a, l)| format!("{a}:{l}")).collect::<Vec<_>>().join(",") };
-    let req = format!("C02 cover store={} pads={pads_s} kind={kind} case={} obs={}", hex(&c.store), c.name, rle(&obs));
+    let heads = bstr_heads;
+    let heads_s = if heads.is_empty() { "-".to_string() } else { heads.iter().map(|h| h.to_string()).collect::<Vec<_>>().join(",") };
+    if !heads.is_empty() {
+        run.count(&format!("databox-bstr-heads:{}", heads.len()));
+    }
+    let nils: Vec<String> = nil_pos.iter().map(|p| p.to_string()).collect();
+    let nils_s = if nils.is_empty() { "-".to_string() } else { nils.join(",") };
+    let req = format!("C02 cover store={} pads={pads_s} nils={nils_s} heads={heads_s} kind={kind} case={} obs={}", hex(&c.store), c.name, rle(&obs));
     let idx = run.case(req, "ok".into());
     for (p, o) in obs.iter().enumerate() {
         if *o == 'X' {
-            run.fail(idx, "accepted-changed-report", format!("{} {kind} at store byte {p}: accepted with a different report", c.name));
+            let newb = muts.iter().find(|m| m.0 == p).map(|m| m.1).unwrap_or(0);
+            run.fail(idx, "accepted-changed-report", format!("{} {kind} at store byte {p} ({:#04x} -> {newb:#04x}): accepted with a different report", c.name, c.store[p]));
             break;
         }
     }
@@ -503,8 +791,9 @@ fn sweep(run: &mut Run, rng: &mut Rng, c: &Case, kind: &str, stride: usize) {
 }
 
 fn structural(run: &mut Run, c: &Case) {
-    for (name, edited) in structural_edits(&c.store) {
-        let r = read_with_store(&c.format, &c.asset, &edited);
+    let edits = structural_edits(&c.store);
+    let reports = par_map(&edits, |(_, edited)| read_with_store(&c.format, &c.asset, edited));
+    for ((name, _), r) in edits.iter().zip(reports) {
         let o = outcome(&c.base, &r);
         run.count(&format!("edit:{}:{o}", name.split(':').last().unwrap_or("").trim_end_matches(|ch: char| ch.is_ascii_digit() || ch == '-')));
         run.nontrivial(format!("{}:edit:{name}", c.name));
@@ -520,6 +809,301 @@ fn structural(run: &mut Run, c: &Case) {
                 format!("edit-accepted-changed-report:{}", name.split(':').last().unwrap_or("").trim_end_matches(|ch: char| ch.is_ascii_digit() || ch == '-'))
             };
             run.fail(idx, &class, format!("{} {name}: state {} with a different report; before: …{}… after: …{}…", c.name, r.state, ctx(&c.base.json), ctx(&r.json)));
+        }
+    }
+}
+
+
+// ───────────────────── function level: a real store described to layer A ─────────────────────
+
+/// id of a digest (H-free: it stands for its preimage): the whole digest
+fn h8(b: &[u8]) -> String {
+    if b.is_empty() {
+        "-".into()
+    } else {
+        hex(b)
+    }
+}
+
+fn sha(b: &[u8]) -> Vec<u8> {
+    Sha256::digest(b).to_vec()
+}
+
+fn proto_safe(s: &str) -> bool {
+    !s.is_empty() && !s.chars().any(|c| " ~,;|^\n".contains(c))
+}
+
+/// sha(signature value) -> sha(claim bytes it was made over), taken from the untampered store:
+/// the harness-side realisation of Sig-free
+type Signed = std::collections::BTreeMap<Vec<u8>, Vec<u8>>;
+
+/// identity of a signature value: protected header bytes + signature bytes of the COSE_Sign1
+/// (the unprotected header — pads, time stamps — is not part of what is verified); the whole box
+/// content when it does not parse
+fn sig_id(signature_val: &[u8]) -> Vec<u8> {
+    use coset::{CborSerializable, TaggedCborSerializable};
+    let parsed = coset::CoseSign1::from_tagged_slice(signature_val).or_else(|_| coset::CoseSign1::from_slice(signature_val));
+    match parsed {
+        Ok(s1) => {
+            let mut v = s1.protected.original_data.clone().unwrap_or_default();
+            v.extend_from_slice(b"|");
+            v.extend_from_slice(&s1.signature);
+            sha(&v)
+        }
+        Err(_) => sha(signature_val),
+    }
+}
+
+fn signed_map(store: &hk20::Store) -> Signed {
+    store.claims().iter().map(|c| (sig_id(c.signature_val()), sha(&c.data().unwrap_or_default()))).collect()
+}
+
+/// one manifest for the model (format: see `verify` in Model/C02.lean); None = not describable
+fn abs_manifest(store: &hk20::Store, c: &hk20::Claim, signed: &Signed) -> Option<String> {
+    let (bh, sh) = hk19::store_manifest_box_hashes(store, c);
+    let data = c.data().ok()?;
+    let ings = c.ingredient_assertions();
+    let mut uris = vec![];
+    for hu in c.assertions() {
+        let (l, i) = hk20::Claim::assertion_label_from_link(&hu.url());
+        let tgt = if hu.is_relative_url() {
+            "r".to_string()
+        } else {
+            match hk34::manifest_label_from_uri(&hu.url()) {
+                Some(m) => format!("m^{m}"),
+                None => "x".to_string(),
+            }
+        };
+        if !proto_safe(&l) || !proto_safe(&tgt) {
+            return None;
+        }
+        uris.push(format!("{tgt}~{l}~{i}~{}", h8(&hu.hash())));
+    }
+    let mut boxes = vec![];
+    for ca in c.claim_assertion_store() {
+        let l = ca.label_raw();
+        if !proto_safe(&l) {
+            return None;
+        }
+        let is_ing = ings.iter().any(|x| std::ptr::eq(*x, ca));
+        let zero = hk20::assertion_data(ca.assertion()).iter().all(|b| *b == 0);
+        let r = if is_ing && !zero {
+            // an ingredient assertion that does not decode stops the real walk before anything is
+            // compared (`Ingredient::from_assertion(..)?`): not describable to layer A
+            let i = hk20::ingredient_from_assertion(ca.assertion()).ok()?;
+            match i.c2pa_manifest() {
+                Some(h) => {
+                    let t = hk20::Store::manifest_label_from_path(&h.url());
+                    if !proto_safe(&t) {
+                        return None;
+                    }
+                    format!("0^{t}^{}^{}", h8(&h.hash()), i.signature().map(|s| h8(&s.hash())).unwrap_or("-".into()))
+                }
+                None => "-".into(),
+            }
+        } else {
+            "-".into()
+        };
+        boxes.push(format!("{l}~{}~{}~{r}", ca.instance(), h8(ca.hash())));
+    }
+    let mut reds = vec![];
+    for r in c.redactions().cloned().unwrap_or_default() {
+        let (l, i) = hk20::Claim::assertion_label_from_link(&r);
+        let m = hk34::manifest_label_from_uri(&r).unwrap_or_default();
+        if !proto_safe(&r) || !proto_safe(&l) || (!m.is_empty() && !proto_safe(&m)) {
+            return None;
+        }
+        reds.push(format!("{r}~{m}~{l}~{i}"));
+    }
+    let list = |v: &Vec<String>| if v.is_empty() { "-".to_string() } else { v.join(",") };
+    if !proto_safe(c.label()) {
+        return None;
+    }
+    Some(format!(
+        "L={};V={};D={};S={};SH={};BH={};A={};T={};R={}",
+        c.label(),
+        c.version(),
+        h8(&sha(&data)),
+        signed.get(&sig_id(c.signature_val())).map(|d| h8(d)).unwrap_or("-".into()),
+        h8(&sh),
+        h8(&bh),
+        list(&uris),
+        list(&boxes),
+        list(&reds)
+    ))
+}
+
+/// the failures of the real `Store::verify_store` (no asset data, default tracker =
+/// ContinueWhenPossible) in the vocabulary of layer A, sorted, without repetitions
+fn impl_verify(run: &mut Run, store: &hk20::Store) -> String {
+    let mut log = StatusTracker::default();
+    let ctx = Context::new().with_settings(settings().as_str()).expect("settings");
+    let r = hk19::verify_store(store, &mut log, &ctx);
+    let mut out = std::collections::BTreeSet::new();
+    for item in log.logged_items() {
+        if !matches!(item.kind, LogKind::Failure) {
+            continue;
+        }
+        let Some(code) = item.validation_status.as_deref() else { continue };
+        let lab = item.label.to_string();
+        let m = hk34::manifest_label_from_uri(&lab).unwrap_or_default();
+        let key = || {
+            let (l, i) = hk20::Claim::assertion_label_from_link(&lab);
+            format!("{l}#{i}")
+        };
+        match code {
+            "claimSignature.mismatch" => out.insert(format!("sig:{m}")),
+            "assertion.hashedURI.mismatch" => out.insert(format!("mismatch:{m}/{}", key())),
+            "assertion.missing" => out.insert(format!("missing:{m}/{}", key())),
+            "assertion.outsideManifest" => out.insert(format!("outside:{}", key())),
+            "assertion.undeclared" => out.insert(format!("undeclared:{}", key())),
+            "ingredient.manifest.missing" => out.insert(format!("ing-missing:{}", hk20::Store::manifest_label_from_path(&lab))),
+            "ingredient.manifest.mismatch" => out.insert(format!("ing-mismatch:{}", hk20::Store::manifest_label_from_path(&lab))),
+            "ingredient.claimSignature.missing" => out.insert(format!("ing-sig-missing:{}", hk20::Store::manifest_label_from_path(&lab))),
+            "ingredient.claimSignature.mismatch" => out.insert(format!("ing-sig:{}", hk20::Store::manifest_label_from_path(&lab))),
+            other => {
+                // outside layer A (trust, action rules, …): counted, not compared
+                run.count(&format!("verify:other-code:{other}"));
+                false
+            }
+        };
+    }
+    let fs: Vec<String> = out.into_iter().collect();
+    // `Err` from a site outside layer A (no hard binding, an actions assertion that does not
+    // decode, …) cuts the walk short at a point the model cannot know
+    let own_stop = fs.iter().any(|f| f.starts_with("undeclared:") || f.starts_with("ing-sig-missing:"));
+    if r.is_err() && !own_stop {
+        return "foreign-stop".into();
+    }
+    format!("{} {}", if r.is_ok() { "ok" } else { "err" }, if fs.is_empty() { "-".to_string() } else { fs.join(",") })
+}
+
+/// positions of payload bytes of the content boxes laid out in `b[start..end]` (not box headers,
+/// not the re-generated toggles byte of a `bfdb` box)
+fn payload_positions(b: &[u8], start: usize, end: usize) -> Vec<usize> {
+    let mut out = vec![];
+    let mut off = start;
+    while off + 8 <= end.min(b.len()) {
+        let l = u32::from_be_bytes([b[off], b[off + 1], b[off + 2], b[off + 3]]) as usize;
+        if l < 8 || off + l > end {
+            break;
+        }
+        match &b[off + 4..off + 8] {
+            b"jumb" => {}
+            b"bfdb" => out.extend(off + 9..off + l),
+            _ => out.extend(off + 8..off + l),
+        }
+        off += l;
+    }
+    out
+}
+
+/// (name, edited store, is the edit a change of assertion / claim payload bytes?)
+fn verify_edits(rng: &mut Rng, store: &[u8], per_box: usize) -> Vec<(String, Vec<u8>, bool)> {
+    let mut out = vec![("pristine".to_string(), store.to_vec(), false)];
+    let Some(root) = supers(store, 0, store.len()).into_iter().next() else { return out };
+    let manifests = supers(store, root.3, root.0 + root.1);
+    for (mi, m) in manifests.iter().enumerate() {
+        for part in supers(store, m.3, m.0 + m.1) {
+            let targets: Vec<(Vec<usize>, String)> = if part.2 == "c2pa.assertions" {
+                supers(store, part.3, part.0 + part.1).into_iter().map(|a| (payload_positions(store, a.3, a.0 + a.1), a.2)).collect()
+            } else if part.2.starts_with("c2pa.claim") {
+                vec![(payload_positions(store, part.3, part.0 + part.1), part.2.clone())]
+            } else {
+                vec![]
+            };
+            for (positions, label) in targets {
+                if positions.is_empty() {
+                    continue;
+                }
+                for _ in 0..per_box {
+                    let p = positions[rng.below(positions.len() as u64) as usize];
+                    let mut s = store.to_vec();
+                    s[p] ^= 1 << rng.below(8);
+                    out.push((format!("m{mi}:{label}:flip@{p}"), s, true));
+                }
+            }
+        }
+    }
+    // a zero byte of a pad value of every signature box: the signature value still verifies, the
+    // re-built signature box (claimSignature hash of a referencing ingredient) changes
+    for pair in pad_ranges(store).chunks(2) {
+        if let [_, (v, l)] = pair {
+            if *l >= 4 {
+                let p = v + 3 + rng.below((*l - 3) as u64) as usize;
+                let mi = manifests.iter().position(|m| m.0 <= p && p < m.0 + m.1).unwrap_or(0);
+                let mut s = store.to_vec();
+                s[p] ^= 1 << rng.below(8);
+                out.push((format!("m{mi}:c2pa.signature:padflip@{p}"), s, false));
+            }
+        }
+    }
+    for (name, edited) in structural_edits(store) {
+        out.push((name, edited, false));
+    }
+    out
+}
+
+fn verify_level(run: &mut Run, rng: &mut Rng, c: &Case, per_box: usize) {
+    let ctx = Context::new().with_settings(settings().as_str()).expect("settings");
+    let load = |b: &[u8]| {
+        let (b, ctx) = (b.to_vec(), &ctx);
+        guarded(std::panic::AssertUnwindSafe(move || {
+            let mut log = StatusTracker::default();
+            hk19::store_from_jumbf(&b, &mut log, ctx)
+        }))
+    };
+    let Ok(Ok(pristine)) = load(&c.store) else {
+        run.obligations.insert(format!("verify:pristine-store-loads:{}", c.name), false);
+        return;
+    };
+    let signed = signed_map(&pristine);
+    for (name, edited, payload_change) in verify_edits(rng, &c.store, per_box) {
+        let kind = name.split(':').last().unwrap_or("").split('@').next().unwrap_or("").trim_end_matches(|ch: char| ch.is_ascii_digit() || ch == '-').to_string();
+        let st = match load(&edited) {
+            Ok(Ok(st)) => st,
+            Ok(Err(_)) => {
+                run.count(&format!("verify:{kind}:load-error"));
+                continue;
+            }
+            Err(p) => {
+                let idx = run.case(format!("C02 oracle case={} verify-edit={name}", c.name), "oracle-only".into());
+                run.fail(idx, "panic", format!("{} {name}: loading the store panicked: {p}", c.name));
+                continue;
+            }
+        };
+        let abs: Option<Vec<String>> = st.claims().iter().map(|cl| abs_manifest(&st, cl, &signed)).collect();
+        let Some(abs) = abs else {
+            run.count(&format!("verify:{kind}:not-describable"));
+            continue;
+        };
+        let reply = match guarded(std::panic::AssertUnwindSafe(|| impl_verify(run, &st))) {
+            Ok(r) => r,
+            Err(p) => {
+                let idx = run.case(format!("C02 oracle case={} verify-edit={name}", c.name), "oracle-only".into());
+                run.fail(idx, "panic", format!("{} {name}: verify_store panicked: {p}", c.name));
+                continue;
+            }
+        };
+        if reply == "foreign-stop" {
+            // detected (verify_store returned Err), but not comparable with layer A
+            run.count(&format!("verify:{kind}:foreign-stop"));
+            continue;
+        }
+        run.count(&format!("verify:{kind}:{}", if reply == "ok -" { "clean" } else { "failures" }));
+        run.nontrivial(format!("{}:verify:{name}", c.name));
+        let idx = run.case(format!("C02 verify case={} edit={name} store={}", c.name, abs.join("|")), reply.clone());
+        // oracle on the implementation: changed claim / assertion payload bytes of a store that
+        // still loads must leave a failure in the log of verify_store
+        // (the content of an assertion box that a later manifest redacted is compared with nothing)
+        let redacted_target = st.claims().iter().any(|cl| {
+            cl.redactions().map(|rs| rs.iter().any(|r| name.split(':').nth(1).is_some_and(|l| r.ends_with(&format!("/c2pa.assertions/{l}"))))).unwrap_or(false)
+        });
+        if payload_change && !redacted_target && reply == "ok -" {
+            run.fail(idx, "verify-accepted-changed-payload", format!("{} {name}: verify_store logged no failure for changed payload bytes", c.name));
+        }
+        if name == "pristine" {
+            run.obligations.insert(format!("verify:pristine-store-clean:{}", c.name), reply == "ok -");
         }
     }
 }
@@ -559,12 +1143,28 @@ fn run(run: &mut Run, rng: &mut Rng) {
     run.rule = "non-trivial: a store byte was changed or the box structure edited and the asset read back (distinct by store, position / edit, mutation kind)".to_string();
     let thorough = run.thorough();
     let cases = build_cases(run, rng);
-    run.obligations.insert("stores:single+chain2+chain3".into(), cases.len() == 3);
+    let names: Vec<&str> = cases.iter().map(|c| c.name.as_str()).collect();
+    run.obligations.insert(
+        "stores:single+chain2+chain3+redact2+redact3+fixture-databoxes".into(),
+        names == ["single:png", "chain2:png", "chain3:png", "redact2:png", "redact3:png", "fixture-databoxes:jpg"],
+    );
     for c in &cases {
-        let big = c.store.len() > 5000;
-        sweep(run, rng, c, "flip", if thorough || !big { 1 } else { 4 });
-        sweep(run, rng, c, "set", if thorough { 1 } else if big { 9 } else { 2 });
+        // quick: every byte of the single store, of the assertion stores of the ingredient
+        // manifests of the depth-2 chains and of the fixture, of every databox / credential store
+        // (flip), a sample of the rest; thorough: every byte (flip), every / every 3rd byte (set)
+        let (flip, set) = match (thorough, c.name.as_str()) {
+            (true, "single:png") | (true, "chain2:png") | (true, "redact2:png") => (1, 1),
+            (true, _) => (1, 3),
+            (false, "single:png") => (1, 3),
+            (false, "chain2:png") | (false, "redact2:png") => (6, 16),
+            (false, "fixture-databoxes:jpg") => (12, 40),
+            (false, _) => (12, 30),
+        };
+        let depth2 = c.name.starts_with("chain2") || c.name.starts_with("redact2") || c.name.starts_with("fixture");
+        sweep(run, rng, c, "flip", flip, thorough || depth2);
+        sweep(run, rng, c, "set", set, thorough);
         structural(run, c);
+        verify_level(run, rng, c, if thorough { 12 } else { 3 });
     }
     // embedded variants: JPEG (APP11 segments) and MP4 (uuid box), no container checksums
     let jpg = ec::gen_asset(Family::Jpeg, rng, None);
